@@ -12,5 +12,10 @@ find $d -name '*.orig' -o -name '*.rej' | xargs rm -f
 if ! (cd $d && go build ./... >/dev/null 2>&1); then echo "COMBO $r $s SKIP(does not build)"; rm -rf $d; exit 0; fi
 mkdir -p $work/ev.$r.$s; cp /verif/known_findings.txt $work/ev.$r.$s/
 (cd /verif && bin/dlint -repo $d -verif $work/ev.$r.$s -property $p >/dev/null 2>&1); code=$?
-if [ $code -ne 0 ]; then echo "COMBO $r $s DETECTED"; else echo "COMBO $r $s MISSED"; fi
+case $code in
+  1) echo "COMBO $r $s DETECTED";;
+  2) echo "COMBO $r $s UNDECIDED";;
+  0) echo "COMBO $r $s MISSED";;
+  *) echo "COMBO $r $s ERROR($code)";;
+esac
 rm -rf $d $work/ev.$r.$s
